@@ -270,9 +270,12 @@ def hexValExact (c : Char) : Option Nat :=
   if '0' ≤ c ∧ c ≤ '9' then some (c.toNat - 48)
   else if 'A' ≤ c ∧ c ≤ 'F' then some (c.toNat - 55) else none
 
+/-- `String::len`: the number of UTF-8 bytes -/
+def strLen (l : List Char) : Nat := (l.map Char.utf8Size).sum
+
 def pushRepeated (dst rec : List Char) (n : Int) : List Char :=
   if rec.isEmpty then dst else
-  let room := (MAX_MACRO_LEN - dst.length) / rec.length
+  let room := (MAX_MACRO_LEN - strLen dst) / strLen rec
   let k := min n.toNat room
   dst ++ (List.replicate k rec).flatten
 
